@@ -73,6 +73,8 @@ type startSpec struct {
 	// Unset lists environment names that the starter must NOT set itself (the config file decides them instead).
 	// Placeholders in File/Env/Args: {DIR} data directory parent, {FREEADDR} a free loopback address, {INTERNAL} the internal HTTP address.
 	Unset []string `json:"unset,omitempty"`
+	// Files are written below the run's directory before the start (relative path -> content).
+	Files map[string]string `json:"files,omitempty"`
 }
 
 type startResult struct {
@@ -196,6 +198,19 @@ func runNodeOnce(t testing.TB, spec startSpec, up func(sys *core.System, interna
 	if err := os.WriteFile(cfgFile, []byte(fill(spec.File)), 0o600); err != nil {
 		t.Fatal(err)
 	}
+	files := spec.Files
+	if files == nil {
+		files = ownedFiles // every node gets the two discovery definitions that settings() points at
+	}
+	for name, content := range files {
+		full := filepath.Join(dir, name)
+		if err := os.MkdirAll(filepath.Dir(full), 0o700); err != nil {
+			t.Fatal(err)
+		}
+		if err := os.WriteFile(full, []byte(fill(content)), 0o600); err != nil {
+			t.Fatal(err)
+		}
+	}
 	env := map[string]string{
 		"NUTS_DATADIR":               filepath.Join(dir, "data"),
 		"NUTS_CONFIGFILE":            cfgFile,
@@ -228,6 +243,7 @@ func runNodeOnce(t testing.TB, spec startSpec, up func(sys *core.System, interna
 
 	ctx, cancel := context.WithCancel(context.Background())
 	defer cancel()
+	theLab().Take() // whatever the previous node's background routines still sent before it shut down is not this node's
 	system := cmd.CreateSystem(cancel)
 	hook.take()
 	type execEnd struct {
@@ -350,8 +366,10 @@ func (c nodeCfg) settings(t testing.TB) map[string]string {
 		"NUTS_NETWORK_V2_DIAGNOSTICSINTERVAL": "0", // the periodic broadcast is not part of the property
 		"NUTS_AUTH_IRMA_AUTOUPDATESCHEMAS":    "false",
 		"NUTS_DIDMETHODS":                     c.Methods,
-		"NUTS_AUTH_IRMA_SCHEMEMANAGER":        c.Irma,
-		"NUTS_TLS_TRUSTSTOREFILE":             trust,
+		// two discovery services whose server lives elsewhere (the node forwards registrations and polls them): owned-client probes
+		"NUTS_DISCOVERY_DEFINITIONS_DIRECTORY": "{DIR}/discovery",
+		"NUTS_AUTH_IRMA_SCHEMEMANAGER":         c.Irma,
+		"NUTS_TLS_TRUSTSTOREFILE":              trust,
 	}
 	if c.URL != "" {
 		env["NUTS_URL"] = c.URL
